@@ -26,7 +26,8 @@ class VLoop(asyncio.SelectorEventLoop):
 class RTSim(mosaik_api_v3.Simulator):
     def __init__(self):
         super().__init__({'api_version': '3.0', 'type': 'time-based', 'models': {'M': {'public': True, 'params': [], 'attrs': ['i', 'po', 'ti']}}})
-    def init(self, sid, time_resolution=1.0, step_size=1, duration=0.0, typ='time-based', events=None, self_steps=True, flag=True, external=None, durations=None):
+    def init(self, sid, time_resolution=1.0, step_size=1, duration=0.0, typ='time-based', events=None, self_steps=True, flag=True, external=None, durations=None, setup_delay=0.0):
+        self.setup_delay = setup_delay        # setup_done() takes that long (a simulator that loads data before the run starts)
         self.durs = durations or {}        # per step time: how long that step takes (overrides duration)
         self.sid = sid; self.ss = step_size; self.dur = duration; self.events = dict(events or {}); self.self_steps = self_steps
         self.external = external or []        # [(seconds after setup_done, event time)]: set_event calls made from OUTSIDE a step (an external event source)
@@ -39,6 +40,7 @@ class RTSim(mosaik_api_v3.Simulator):
     def setup_done(self):
         loop = asyncio.get_event_loop()
         for delay, ev in self.external: loop.call_later(delay, self._inject, delay, ev)
+        if self.setup_delay: yield asyncio.sleep(self.setup_delay)
     def _inject(self, delay, ev):
         def done(f):
             LOG.append(('SETEVENT', self.sid, ('ext', delay), ev, 'ok' if f.cancelled() or f.exception() is None else type(f.exception()).__name__))
@@ -65,7 +67,7 @@ def trial(cfg):
     w = mosaik.World({'S': {'python': 'harness.props.c17:RTSim'}}, skip_greetings=True, asyncio_loop=loop, time_resolution=cfg['res'])
     ents = []
     for i, s in enumerate(cfg['sims']):
-        kw = dict(step_size=s.get('step_size', 1), duration=s.get('duration', 0.0), typ=s.get('typ', 'time-based'), events=s.get('events'), self_steps=s.get('self_steps', True), flag=s.get('flag', True), external=s.get('external'), durations=s.get('durations'))
+        kw = dict(step_size=s.get('step_size', 1), duration=s.get('duration', 0.0), typ=s.get('typ', 'time-based'), events=s.get('events'), self_steps=s.get('self_steps', True), flag=s.get('flag', True), external=s.get('external'), durations=s.get('durations'), setup_delay=s.get('setup_delay', 0.0))
         if s.get('group'):
             with w.group(): ents.append(w.start('S', sim_id=f'S{i}', **kw).M())
         else:
@@ -105,7 +107,9 @@ def monitor(cfg, r):
         elif r['outcome'] != 'returned': bad.append(f"run failed: {r['outcome']}")
         return bad
     rr = rt * cfg['res']
-    begins = [l for l in r['log'] if l[0] == 'BEGIN']
+    # the clock of the run starts when every simulator has answered setup_done (times in the log are those of the event loop)
+    T0 = max([s_.get('setup_delay', 0.0) for s_ in cfg['sims']] + [0.0])
+    begins = [(l[0], l[1], l[2], l[3] - T0) for l in r['log'] if l[0] == 'BEGIN']
     for _, sid, t, c in begins:
         if t > 0 and not c > rr * (t - 1): bad.append(f'{sid} began its step for t={t} at {c}s, not after rt_factor*time_resolution*(t-1) = {rr * (t - 1)}s')
     instant = all(not s.get('duration') for s in cfg['sims'])
@@ -127,7 +131,7 @@ def monitor(cfg, r):
         if l[0] == 'SETEVENT' and l[4] == 'ok':
             _, sid, t0, ev, _ = l
             inside = not isinstance(t0, tuple)
-            if isinstance(t0, tuple): t0 = math.ceil(t0[1] / rr)       # an external call made `delay` seconds after the start: the clock then shows ceil(delay / rr)
+            if isinstance(t0, tuple): t0 = math.ceil(max(0.0, t0[1] - T0) / rr)       # an external call made `delay` seconds after the start: the clock then shows ceil(delay / rr)
             stepped = any(b[1] == sid and b[2] == ev for b in begins)
             if t0 < ev < until and not stepped and r['outcome'] == 'returned': bad.append(f'{sid}: set_event({ev}) at step {t0} did not cause a step at {ev}')
             if inside and ev == t0 and ev < until and r['outcome'] == 'returned' and not any(x[0] == 'BEGIN' and x[1] == sid and x[2] == ev for x in r['log'][n_ + 1:]):
@@ -165,6 +169,12 @@ def configs(tier, rng):
             out.append(dict(rt=rt, res=1.0, until=10, strict=False, sims=[dict(ctl, initial=False, external=[(1.5 * rt, 4), (1.75 * rt, 7)])], connect=[]))
             out.append(dict(rt=rt, res=1.0, until=10, strict=False, sims=[dict(ctl, external=[(3.5 * rt, 6)]), {'step_size': 3}], connect=[(0, 1)]))
             out.append(dict(rt=rt, res=1.0, until=9, strict=False, sims=[dict(ctl, events={'0': [3]}), {}], connect=[]))
+    for rt in rts:
+        # a slow setup_done(): the clock of the run starts when the simulators are ready, whoever took long to get there
+        ctl = {'typ': 'event-based', 'self_steps': False, 'initial': False}
+        out.append(dict(rt=rt, res=1.0, until=8, strict=False, sims=[{}, dict(ctl, external=[(8.5 * rt, 6)]), {'setup_delay': 3.5 * rt}], connect=[]))
+        out.append(dict(rt=rt, res=1.0, until=8, strict=False, sims=[{'setup_delay': 2.5 * rt}, dict(ctl, external=[(6.5 * rt, 5)])], connect=[]))
+        out.append(dict(rt=rt, res=0.5, until=8, strict=False, sims=[{}, {'step_size': 2, 'setup_delay': 4.25 * rt}, dict(ctl, external=[(5.25 * rt, 4)])], connect=[(0, 1)]))
     for rt in rts:
         # an event for the very time of the step in progress (a re-step "now"), alone and together with later ones
         ev = {'typ': 'event-based', 'self_steps': False}
@@ -215,17 +225,18 @@ def correspondence(cfg, r, model):
     bad = []
     if cfg['rt'] is None: return bad, 0
     R = int(round(cfg['rt'] * cfg['res'] * SCALE)); n = 0
+    T0 = max([s_.get('setup_delay', 0.0) for s_ in cfg['sims']] + [0.0])
     for l in r['log']:
         if l[0] == 'BEGIN':
             _, sid, t, c = l; n += 1
-            if model.ask(f'R_BEGIN {t} {int(round(c * SCALE))} {R}') != '1':
+            if model.ask(f'R_BEGIN {t} {int(round((c - T0) * SCALE))} {R}') != '1':
                 bad.append(f'{sid} began t={t} at {c}: the model does not allow it yet')
     # too-slow: the model's rt_check at each END
     expect = 0
     for l in r['log']:
         if l[0] == 'END':
             _, sid, t, c = l; n += 1
-            if model.ask(f'R_CHECK 1 {R} {int(cfg["strict"])} {int(round(c * SCALE))} {t}') != 'intime': expect += 1
+            if model.ask(f'R_CHECK 1 {R} {int(cfg["strict"])} {int(round((c - T0) * SCALE))} {t}') != 'intime': expect += 1
     got = r['too_slow'] + (1 if r['outcome'].startswith('RuntimeError') else 0)
     if cfg['strict']:
         if (expect > 0) != (got > 0): bad.append(f'too-slow: model expects {"an" if expect else "no"} abort, implementation: {r["outcome"][:60]}')
